@@ -233,6 +233,13 @@ def math_argtype(repo, res):
     if table is None:
         raise AnalysisError("C formatter: math_table not found")
     S = lambda n, t: Node("Symbol", name=n, dtype=t)  # noqa: E731
+
+    def mathfn(it_, fn_, args_):
+        """the MathFunction node as the repository's own constructor builds it (its dtype is whatever __init__ computes)"""
+        try:
+            return it_.construct("MathFunction", [fn_, list(args_)], {})
+        except Raised as e_:
+            raise AnalysisError(f"MathFunction({fn_!r}, ...) cannot be constructed on the sample arguments: {e_.what}")
     R, C = "DataType.REAL", "DataType.SCALAR"
     cases = [("power", [R, R], "real"), ("power", [R, C], "complex"), ("power", [C, R], "complex"), ("power", [C, C], "complex"),
              ("sqrt", [R], "real"), ("sqrt", [C], "complex"), ("atan2", [R, R], "real"), ("exp", [C], "complex"), ("abs", [R], "real")]
@@ -250,7 +257,7 @@ def math_argtype(repo, res):
             it.overrides["np.complexfloating"] = "np.complexfloating"
             fmt = Node("Formatter", scalar_type=Node("dtype", name=sname), real_type=Node("dtype", name=rname),
                        __call__=_PyCall(lambda a: a.f["name"] if isinstance(a, Node) and "name" in a.f else "x"))
-            call = Node("MathFunction", function=fn, args=[S(f"a{i}", d) for i, d in enumerate(dts)], dtype=C if C in dts else R)
+            call = mathfn(it, fn, [S(f"a{i}", d) for i, d in enumerate(dts)])
             try:
                 text = it.call_f(h, [fmt, call])
             except Raised as e:
@@ -285,7 +292,7 @@ def math_argtype(repo, res):
                 it.overrides["np.iscomplexobj"] = _PyCall(lambda t: getattr(t, "f", {}).get("name", "").startswith("complex"))
                 fmt = Node("Formatter", scalar_type=Node("dtype", name=sname, kind="c"), real_type=Node("dtype", name=rname, kind="f"),
                            __call__=_PyCall(lambda a: a.f["name"] if isinstance(a, Node) and "name" in a.f else "x"))
-                call = Node("MathFunction", function=fn, args=[S(f"a{i}", d) if d != INT else Node("LiteralInt", value=1, dtype=INT, name="1") for i, d in enumerate(dts)], dtype=C)
+                call = mathfn(it, fn, [S(f"a{i}", d) if d != INT else Node("LiteralInt", value=1, dtype=INT, name="1") for i, d in enumerate(dts)])
                 try:
                     text = it.call_f(h, [fmt, call])
                 except Raised:
@@ -311,7 +318,7 @@ def math_argtype(repo, res):
             it.overrides["np.iscomplexobj"] = _PyCall(lambda t: getattr(t, "f", {}).get("name", "").startswith("complex"))
             fmt = Node("Formatter", scalar_type=Node("dtype", name=sname, kind="c"), real_type=Node("dtype", name=rname, kind="f"),
                        __call__=_PyCall(lambda a: a.f["name"] if isinstance(a, Node) and "name" in a.f else "x"))
-            call = Node("MathFunction", function=fn, args=[S(f"a{i}", d) if d != INT else Node("LiteralInt", value=1, dtype=INT, name="1") for i, d in enumerate(dts)], dtype=R)
+            call = mathfn(it, fn, [S(f"a{i}", d) if d != INT else Node("LiteralInt", value=1, dtype=INT, name="1") for i, d in enumerate(dts)])
             try:
                 text = it.call_f(h, [fmt, call])
             except Raised as e:
@@ -335,7 +342,7 @@ def math_argtype(repo, res):
             it.overrides["np.iscomplexobj"] = _PyCall(lambda t: getattr(t, "f", {}).get("name", "").startswith("complex"))
             fmt = Node("Formatter", scalar_type=Node("dtype", name=sname, kind="c"), real_type=Node("dtype", name=rname, kind="f"),
                        __call__=_PyCall(lambda a: a.f["name"] if isinstance(a, Node) and "name" in a.f else "x"))
-            call = Node("MathFunction", function=fn, args=[S("a0", C)], dtype=C)
+            call = mathfn(it, fn, [S("a0", C)])
             try:
                 text = it.call_f(h, [fmt, call])
             except Raised:
